@@ -61,11 +61,24 @@ func runCleanup(c *core.Ctx) {
 			_, p := accessPath(v)
 			return len(p) > 0 && p[len(p)-1] == "pruneFn"
 		}
-		var removals []*ssa.Call
+		type remSite struct {
+			call *ssa.Call
+			key  ssa.Value
+		}
+		var removals []remSite
 		an.Calls(fn, func(call ssa.CallInstruction) {
 			if cc, ok := call.(*ssa.Call); ok {
 				if bi, ok := cc.Call.Value.(*ssa.Builtin); ok && bi.Name() == "delete" && isEntries(cc.Call.Args[0]) {
-					removals = append(removals, cc)
+					// a step that removes the entry under the key it is told, without any cleanup of its own, is judged
+					// where it is called
+					if _, isStep := removalStep(fn, isPruneFn); isStep && removalStepCalled(c, fn) {
+						return
+					}
+					removals = append(removals, remSite{cc, cc.Call.Args[1]})
+				} else if h := cc.Call.StaticCallee(); h != nil && h != fn && len(h.Blocks) > 0 && core.FuncPkgPath(h) == core.FuncPkgPath(fn) {
+					if pi, isStep := removalStep(h, isPruneFn); isStep && pi < len(cc.Call.Args) {
+						removals = append(removals, remSite{cc, cc.Call.Args[pi]})
+					}
 				}
 			}
 		})
@@ -114,13 +127,14 @@ func runCleanup(c *core.Ctx) {
 				v.bad = fmt.Sprintf("%s replaces the entries map at %s although it may still hold entries (for instance ones added while the lock was released around a callback): they disappear without their cleanup", name, c.P.Pos(st.Pos()))
 			}
 		})
-		for i, d := range removals {
+		for i, rs := range removals {
+			d := rs.call
 			name := c.P.FuncName(fn)
 			if fn.Origin() != nil {
 				name = c.P.FuncName(fn.Origin())
 			}
 			key := fmt.Sprintf("remove:%s#%d", kn(name), i+1)
-			K := an.Origin(d.Call.Args[1])
+			K := an.Origin(rs.key)
 			bad := ""
 			tracked := map[ssa.Value]int{}
 			var pruneCalls []*ssa.Call
@@ -943,6 +957,21 @@ func runDigester(c *core.Ctx) {
 						for _, a := range call.Common().Args {
 							if mc, ok := an.Strip(a).(*ssa.MakeClosure); ok && mc.Fn == ssa.Value(af) {
 								commitBlock = call.Block()
+								// a name the literal captured from the method (`d := mru.d.Digest()` … `mr.blobs[d] = …`): the
+								// value the method gave that variable
+								if ld, isLd := an.Strip(nameVal).(*ssa.UnOp); isLd && ld.Op == token.MUL {
+									if fv, isFV := ld.X.(*ssa.FreeVar); isFV {
+										for k, f := range af.FreeVars {
+											if f == fv && k < len(mc.Bindings) {
+												if al, isAl := mc.Bindings[k].(*ssa.Alloc); isAl {
+													if sv := an.SingleStore(al); sv != nil {
+														nameVal = sv
+													}
+												}
+											}
+										}
+									}
+								}
 							}
 						}
 					})
@@ -2494,6 +2523,7 @@ func init() {
 							v.n++
 							// count comparison: operands are limit fields, len(entries) or constants; a materialised
 							// `a && b` (a φ of booleans) is one when every operand is
+							bind := map[ssa.Value]ssa.Value{} // parameters of the predicates entered → the arguments they were given
 							var countCond func(v ssa.Value, depth int) bool
 							countCond = func(v ssa.Value, depth int) bool {
 								base, _ := an.CondBase(v)
@@ -2505,6 +2535,11 @@ func init() {
 									h := x.Call.StaticCallee()
 									if h == nil || len(h.Blocks) == 0 || depth > 3 || core.FuncPkgPath(h) != core.FuncPkgPath(fn) || h.Signature.Results().Len() != 1 {
 										return false
+									}
+									for k, hp := range h.Params {
+										if k < len(x.Call.Args) {
+											bind[hp] = x.Call.Args[k]
+										}
 									}
 									okAll, nRet := true, 0
 									an.Instrs(h, func(in ssa.Instruction) {
@@ -2545,6 +2580,9 @@ func init() {
 									return true
 								case *ssa.BinOp:
 									for _, o := range []ssa.Value{x.X, x.Y} {
+										if a, bound := bind[an.Strip(o)]; bound {
+											o = a
+										}
 										if _, isC := an.Strip(o).(*ssa.Const); isC {
 											continue
 										}
@@ -2666,6 +2704,56 @@ func busyFlagLeak(c *core.Ctx, worker *ssa.Function, flag string) string {
 
 // pruneWrapper: h calls the cleanup callback with one of its own parameters as key and every return of h
 // returns that call's error. Returns the index of the key parameter.
+// removalStep: h deletes from the entries map under a key that is one of its parameters and neither calls the cleanup
+// callback nor a wrapper of it — a `remove(key)` step; returns the key's position in the argument list.
+func removalStep(h *ssa.Function, isPruneFn func(ssa.Value) bool) (int, bool) {
+	if len(h.Blocks) == 0 || len(h.Blocks) > 8 {
+		return 0, false
+	}
+	pi, cleans := -1, false
+	an.Calls(h, func(call ssa.CallInstruction) {
+		cc, ok := call.(*ssa.Call)
+		if !ok {
+			return
+		}
+		if bi, isB := cc.Call.Value.(*ssa.Builtin); isB && bi.Name() == "delete" {
+			if _, pth := accessPath(cc.Call.Args[0]); len(pth) > 0 && pth[len(pth)-1] == "entries" {
+				for k, p := range h.Params {
+					if an.Origin(cc.Call.Args[1]) == ssa.Value(p) {
+						pi = k
+					}
+				}
+			}
+			return
+		}
+		if cc.Call.StaticCallee() == nil && !cc.Call.IsInvoke() && isPruneFn(cc.Call.Value) {
+			cleans = true
+		}
+		if g := cc.Call.StaticCallee(); g != nil && len(g.Blocks) > 0 {
+			if _, isW := pruneWrapper(g, isPruneFn); isW {
+				cleans = true
+			}
+		}
+	})
+	return pi, pi >= 0 && !cleans
+}
+
+// removalStepCalled: some function of the cache package calls the step
+func removalStepCalled(c *core.Ctx, h *ssa.Function) bool {
+	called := false
+	for _, fn := range c.P.Funcs("internal/cache") {
+		if fn == h || len(fn.Blocks) == 0 {
+			continue
+		}
+		an.Calls(fn, func(call ssa.CallInstruction) {
+			if g := call.Common().StaticCallee(); g != nil && (g == h || (g.Origin() != nil && g.Origin() == h.Origin())) {
+				called = true
+			}
+		})
+	}
+	return called
+}
+
 func pruneWrapper(h *ssa.Function, isPruneFn func(ssa.Value) bool) (int, bool) {
 	if h.Signature.Results().Len() != 1 || !an.IsErrorType(h.Signature.Results().At(0).Type()) {
 		return 0, false
@@ -2701,6 +2789,14 @@ func pruneWrapper(h *ssa.Function, isPruneFn func(ssa.Value) bool) (int, bool) {
 				for _, g := range an.GuardingEdges(ret.Block()) {
 					if x, nilSucc, isNil := an.NilTest(g.If()); isNil && g.Succ == nilSucc && isPruneFn(x) {
 						return
+					}
+					// … or on the ‘no entry under this key’ edge: nothing to clean up
+					if x, nilSucc, isNil := an.NilTest(g.If()); isNil && g.Succ == nilSucc {
+						if lk, isLk := an.Strip(x).(*ssa.Lookup); isLk && !lk.CommaOk && an.Origin(lk.Index) == ssa.Value(h.Params[pi]) {
+							if _, pth := accessPath(lk.X); len(pth) > 0 && pth[len(pth)-1] == "entries" {
+								return
+							}
+						}
 					}
 				}
 			}
